@@ -46,7 +46,10 @@ fn mk_text(u: &mut Un, names: &mut Names, leading: bool) -> (String, String) {
     let id = names.val();
     let inj = *u.pick(INJECT);
     let a = format!("Zq{}z", id);
-    let text = if leading && u.chance(80) {
+    let text = if u.chance(30) {
+        // the injection sits in a preformatted (4-space indented) code line after an empty line
+        format!("{} intro\n\n    {}Yq{}y", a, inj.replace('\n', ""), id)
+    } else if leading && u.chance(80) {
         // injection at the very start of the text
         format!("{}{} Yq{}y", inj.trim_start_matches('\n'), a, id)
     } else {
